@@ -2,6 +2,7 @@ import MorfuseModel.Lang.IntEncLemmas
 import MorfuseModel.Lang.PrecTable
 import MorfuseModel.Lang.PrecCongr
 import MorfuseModel.Lang.Desugar
+import MorfuseModel.Lang.ForWhile
 /-!
 # C03 — programs compute what the language rules say (property theorems)
 -/
@@ -118,6 +119,19 @@ theorem C03_desugar_for (prog : Program) (init : List Stmt) (c : Expr) (inc body
 
 example : StmtRuns [] (.for_ [.assign (.var .loc "i") (.int 0)] (.bin .lt (.var .loc "i") (.int 2)) [.incr (.var .loc "i")] [.cont])
     {} {} (.ok (.normal, { locals := [("i", .int 2)] }, {})) := ⟨by simp, 12, by decide⟩
+
+/-- **C03, `for` as `while`.**  When neither the body nor the increment contains a `continue` that would bind to
+    the loop (`freeContL`, the syntactic test the layout generator applies), `for (init; c; inc) body` finishes
+    with exactly the results of the source-level spelling `init; while (c) { body; inc }`. -/
+theorem C03_desugar_for_while (prog : Program) (init : List Stmt) (c : Expr) (inc body : List Stmt)
+    (hB : freeContL body = false) (hI : freeContL inc = false) (fr : Frame) (st : St)
+    (res : Res (Flow × Frame × St)) :
+    StmtRuns prog (.for_ init c inc body) fr st res ↔
+      StmtRuns prog (.block (init ++ [.while_ c (body ++ inc) []])) fr st res :=
+  desugar_for_while prog init c inc body hB hI fr st res
+
+example : freeContL [.ite (.var .loc "i") [.brk] [], .print true [.var .loc "i"]] = false := by decide
+example : freeContL [.ite (.var .loc "i") [.cont] []] = true := by decide
 
 /-! ## the evaluator is a function of the program: fuel only decides whether it finishes -/
 
